@@ -277,6 +277,11 @@ def run(ck):
               "chunk size is stored exactly when the conversion consumed hex digits and the value is not negative",
               key_pred=lambda k: k.startswith("Chunk::parse/size-"), min_instances=2)
 
+    ck.borrow("C01", ["C01-R2"], "C02-R9",
+              "TCP may deliver a request line or a header block in two segments; the step is then rolled back and parsed again, so what it "
+              "stores into the message (query parameters, headers, cookies) is an assignment or a keep-first insert, never an append: a "
+              "value that is joined onto an earlier one arrives doubled", min_instances=6)
+
     # ---------------- facts shared with C05 ----------------
     # a response written through a stream object that is moved (into a lambda, a smart pointer, another variable) must still arrive whole
     ck.borrow("C05", ["C05-R4"], "C02-R6",
